@@ -1031,11 +1031,15 @@ walk_descents(cholmod_sparse *AtA_F,
 		pthread_cond_broadcast(&cv);
 		pthread_mutex_unlock(&mutex);
 
-		/* Wait for threads to finish calculations */
+		/*
+		 * Wait for threads to finish calculations. The workers may
+		 * already have reported back by the time we get the mutex
+		 * again, so check their states before waiting: a broadcast
+		 * which nobody is waiting for is lost.
+		 */
 		int done = false;
 		pthread_mutex_lock(&mutex);
-		while (!done) {
-			pthread_cond_wait(&cv, &mutex);
+		while (1) {
 			done = true;
 			for (j = 0; j < n_threads; j++) {
 				if (i*n_threads + j >= n_alpha)
@@ -1043,6 +1047,9 @@ walk_descents(cholmod_sparse *AtA_F,
 				if (descent_trials[j].state != WAIT)
 					done = false;
 			}
+			if (done)
+				break;
+			pthread_cond_wait(&cv, &mutex);
 		}
 		pthread_mutex_unlock(&mutex);
 
